@@ -6,7 +6,7 @@
  "mode": "harness",
  "kind": "proof-const-unwind",
  "unwindset": ["recorded.0:9", "tysel.0:27"],
- "cflags": ["-DVERIF_OWN_XMALLOC"],
+ "link_repo": ["type.c"], "cflags": ["-DVERIF_OWN_XMALLOC"],
  "timeout": 120,
  "expects": ["assertion_verif"],
  "assumes": ["type universe of units/expr/expr_util.h; the operand has decayed (arrays / function designators arrive as non-lvalue pointers)",
